@@ -3,6 +3,7 @@ CONSTANTS
   MaxB = 2
   WithInit = TRUE
   CanonInit = TRUE
+  SelfEdgeChecked = TRUE
   EmitCases = TRUE
 INIT Init
 NEXT Next
